@@ -16,6 +16,9 @@ CHECKS = {
  "C04": ("Intrinsic runtime post-condition on every DesignMatrices built and every evaluate_new_data result: for each term the label -> expected column dictionary is rebuilt from the data frame alone (level indicators, products, group cell x effect) and every actual label/column pair, the label count and the product order are checked; driven by seeded random designs over all categorical dtype kinds, arities 1..4, group-specific terms and hostile level names, and by the repository's own tests (W0).",
          "Judged domain is the statement's (numeric variables / pointwise calls, treatment-coded factors); terms with Sum codings or multi-column transforms are counted as not judged; ambiguous candidate labels are skipped and counted.",
          "intrinsic runtime post-condition (label->column dictionary oracle built from the frame) on hooked design_matrices / evaluate_new_data"),
+ "C05": ("Runtime post-condition on design_matrices for designs with a group part: (A) on any data, every row of every (e|g) block is zero outside the slot of its own group cell and the slot holds the effect columns (numeric effects = shadow design of `0 + e`, categorical effects = level indicators), one term per (effect term, grouping term) with the lme4 implicit intercept, cells sorted/lexicographic; (B) on fully crossed frames the stacked blocks of each grouping factor are linearly independent and span KhatriRao(indicators(g), model space of the effect expression). 25 effect expressions x 8 grouping expressions exhaustively, plus random combinations.",
+         "(B) carries one known finding (group-coding-simplified), matched only where a clean re-implementation of the full coding rule disagrees with the simplified rule; all other inputs are judged. Numerical decisions as in C03.",
+         "runtime post-condition monitor with block-structure oracle, shadow executions of the real code and linear-algebra span oracle"),
 }
 NOT_APPLICABLE = {}
 PENDING = [f"C{i:02d}" for i in range(1, 18) if f"C{i:02d}" not in CHECKS]
